@@ -85,8 +85,8 @@ structure K where
   bpa : BitVec 32
   lex : LexFlags
   pass1WriteDisable : Bool
-  /-- which `parse_instruction` / `list_output` pair is selected (index into cpu_list) -/
-  instrSet : Nat
+  /-- which `parse_instruction` / `list_output` pair is selected (index into cpu_list), `none` = nullptr -/
+  instrSet : Option Nat
   /-- `parse_directive != nullptr` -/
   directiveHook : Bool
   /-- `link_function`: index into cpu_list, `none` = nullptr -/
@@ -232,7 +232,7 @@ def lexOf (i : Generated.CpuInfo) : LexFlags :=
 /-- `AsmContext::set_cpu(index)` followed by `parse_directive = NULL` (parse_directives) -/
 def setCpu (k : K) (idx : Nat) (i : Generated.CpuInfo) : K :=
   { k with cpuType := i.type, bigEndian := i.bigEndian, bpa := BitVec.ofNat 32 i.bytesPerAddress, lex := lexOf i,
-           pass1WriteDisable := i.pass1WriteDisable, instrSet := idx, directiveHook := false,
+           pass1WriteDisable := i.pass1WriteDisable, instrSet := some idx, directiveHook := false,
            linkFn := if i.hasLinker then some idx else none, flags := i.flags, cpuListIndex := Int.ofNat idx }
 
 /-! ### the listing: reads, never writes the assembler's state -/
@@ -298,7 +298,7 @@ def movFinish (c : Ctx) (start : Addr) : Ctx :=
                              codeCount := c'.k.codeCount + span start c'.k.address } }
 
 def movImm (c : Ctx) (o : Operand) (reg : Nat) : Res :=
-  if c.k.instrSet ≠ msp430Idx ∨ reg < 4 ∨ reg > 15 then ⟨c, false⟩       -- other back ends / registers: not modelled
+  if c.k.instrSet ≠ some msp430Idx ∨ reg < 4 ∨ reg > 15 then ⟨c, false⟩       -- other back ends / registers: not modelled
   else
     match movEval (movPad c) o with
     | none => ⟨movPad c, false⟩
@@ -435,14 +435,14 @@ def construct (depth : Nat) : Ctx :=
            syms := [], symsLocked := false, defines := [], macroStackPtr := 0, line := 0, pending := 0,
            address := 0, segmentBss := false, pass := 1, instructionCount := 0, dataCount := 0, codeCount := 0,
            errorCount := 0, ifdefCount := 0, parsingIfdef := false, defParamStackCount := 0, cpuListIndex := 0,
-           cpuType := 0, bpa := 1, lex := {}, pass1WriteDisable := false, instrSet := msp430Idx,
+           cpuType := 0, bpa := 1, lex := {}, pass1WriteDisable := false, instrSet := none,
            directiveHook := false, linkFn := none, flags := 0, error := false, optimize := false, inRepeat := false,
            includeDepth := depth }
     rep := { quiet := false, dumpSymbols := false, dumpMacros := false, list := none, writeListFile := false, out := [] } }
 
 /-- `AsmContext::init()` (with `tokens_reset`, `macros.reset()`) -/
 def initK (k : K) : K :=
-  { k with line := 1, pending := 0, instrSet := msp430Idx, cpuListIndex := -1, address := 0, segmentBss := false,
+  { k with line := 1, pending := 0, instrSet := some msp430Idx, cpuListIndex := -1, address := 0, segmentBss := false,
            instructionCount := 0, codeCount := 0, dataCount := 0, ifdefCount := 0, parsingIfdef := false, bpa := 1,
            inRepeat := false, cpuType := 0, bigEndian := false, lex := {}, pass1WriteDisable := true,
            directiveHook := false, linkFn := none, flags := 0, defines := [], macroStackPtr := 0,
@@ -453,7 +453,7 @@ def init (c : Ctx) : Ctx := { c with k := initK c.k }
 /-- `AsmContext::init()` before 258559a / 66c8e37 / 44d7f59: byte order, CPU type, lexer flags, pass_1_write_disable,
 directive hook, link function, flags and the segment stayed as the previous pass left them -/
 def initKBefore (k : K) : K :=
-  { k with line := 1, pending := 0, instrSet := msp430Idx, cpuListIndex := -1, address := 0,
+  { k with line := 1, pending := 0, instrSet := some msp430Idx, cpuListIndex := -1, address := 0,
            instructionCount := 0, codeCount := 0, dataCount := 0, ifdefCount := 0, parsingIfdef := false, bpa := 1,
            inRepeat := false, defines := [], macroStackPtr := 0, defParamStackCount := 0 }
 
